@@ -64,7 +64,9 @@ def collect(prop, res):
             if tl != '-' and '0' in tl.split(','):
                 known = 'K1' if cfg['kind'] == 'WCA' and 'K1' in {f['id'] for f in findings.load()['findings']} else None
                 unt = [i for i in r['issues'].get('C20', []) if i['what'] == 'untruthful-record']
-                if unt and all(findings.classify('C20', cfg, i) == 'K13' for i in unt):
+                swarm_reuse = (cfg.get('prior') or {}).get('same_space') and cfg['kind'] in ('PSO', 'AIWPSO', 'RPSO') \
+                    and 'K13' in {f['id'] for f in findings.load()['findings']}
+                if swarm_reuse and all(findings.classify('C20', cfg, i) == 'K13' for i in unt):
                     # the machine flags exactly the records of the recorded finding (stale personal bests on a reused space)
                     known = 'K13'
                 issues.append(dict(what='truth-flag', layer='correspondence', cfg_kind=cfg['kind'], truthLog=tl,
